@@ -13,18 +13,24 @@ NRec == Len(TraceRecs)
 VARIABLE i
 
 AtomOf(x) == [kind |-> x.kind, w |-> x.w, l |-> x.l, elim |-> ToSet(x.elim)]
-NodeOf(x) == [path |-> x.path, pruned |-> x.pruned, neb |-> {AtomOf(x.neb[k]) : k \in 1..Len(x.neb)},
-              irv |-> {AtomOf(x.irv[k]) : k \in 1..Len(x.irv)}]
+\* a listed assertion with its confirmation status (a redundant list may hold the same assertion twice, confirmed
+\* and not): tags denote listed assertions, so they are compared together with that status
+AtomP(x) == [kind |-> x.kind, w |-> x.w, l |-> x.l, elim |-> ToSet(x.elim), proved |-> x.proved]
+Strip(a) == [kind |-> a.kind, w |-> a.w, l |-> a.l, elim |-> a.elim]
+NodeOf(x) == [path |-> x.path, pruned |-> x.pruned, neb |-> {AtomP(x.neb[k]) : k \in 1..Len(x.neb)},
+              irv |-> {AtomP(x.irv[k]) : k \in 1..Len(x.irv)}]
 
 Clauses(r) ==
     LET C == ToSet(r.cands)
         A == {AtomOf(r.atoms[k]) : k \in 1..Len(r.atoms)}
+        AP == {AtomP(r.atoms[k]) : k \in 1..Len(r.atoms)}
         got == {NodeOf(r.out.nodes[k]) : k \in 1..Len(r.out.nodes)}
         want == Tree(A, C, r.alt)
         unpr == {Reverse(n.path) : n \in {m \in got : ~m.pruned}}
     IN  (IF {[path |-> n.path, pruned |-> n.pruned] : n \in got} = {[path |-> n.path, pruned |-> n.pruned] : n \in want}
             /\ Cardinality(got) = Len(r.out.nodes) THEN {} ELSE {"shape"})
-        \cup (IF \A n \in got : \A m \in want : n.path = m.path => (n.neb = m.neb /\ n.irv = m.irv) THEN {} ELSE {"tags"})
+        \cup (IF \A n \in got : \A m \in want : n.path = m.path =>
+                    (n.neb = {a \in AP : Strip(a) \in m.neb} /\ n.irv = {a \in AP : Strip(a) \in m.irv}) THEN {} ELSE {"tags"})
         \* the statement: an unpruned leaf iff some order ending in alt is contradicted by no assertion
         \cup (IF (unpr # {}) = (Uncontradicted(A, C, r.alt) # {}) THEN {} ELSE {"leaf_iff"})
         \cup (IF unpr = Uncontradicted(A, C, r.alt) THEN {} ELSE {"leaf_orders"})
